@@ -91,6 +91,24 @@ def run(ctx):
                 w.ops[j] = 'sasnap 1 2 ' + core.hx(b)
                 w.expect[j] = ('standalone-token-swap-reported', suites.exp_one_error_no_write)
         worlds.append(w)
+    # fixed pairs for the multi-entry format: adjacent terminator lines (each must be escaped on its
+    # own), and values that format to the empty text at the front of a multi-value call
+    fixed = [(b'---\n---', b'---'), (b'a\n---\n---\nb', b'a\n---'), (b'---\n---\n---', b'---\n---'), (b'x\n---\n---', b'x\n---\n'),
+             ([b'', b'a'], [b'a']), ([b'a'], [b'', b'a']), ([b'', b'', b'z'], [b'', b'z']), ([b'a', b''], [b'a'])]
+    for i, (a, b) in enumerate(fixed):
+        for kind in ('snap', 'yaml') if not isinstance(a, list) else ('snap',):
+            if kind == 'yaml':
+                a2, b2 = b'k: |\n  v\n' + a + b'\nz: 1\n', b'k: |\n  v\n' + b + b'\nz: 1\n'      # `---` separates YAML documents
+            else:
+                a2, b2 = a, b
+            spec = dict(cfgs=[cfg_line(1, 'snaps')], execs=[(b'TestFixed', [(1, Call(kind, a2))])], flags=set(),
+                        mode=NOUPD[i % len(NOUPD)], seed=i)
+            w = render('c02-fixed-%s-%d' % (kind, i), spec)
+            for j, op in enumerate(w.ops):
+                if op.startswith(kind + ' 1 2 '):
+                    w.ops[j] = Call(kind, b2).op(1, 2)
+                    w.expect[j] = ('fixed-pair-reported', suites.exp_one_error_no_write)
+            worlds.append(w)
     run_suite(ctx, 'match.mismatch', worlds, known=known)
     # colours on: the report must still be non-empty (no model: ANSI layout is not modelled)
     gc = Gen(ctx.seed * 1000003 + 22)
